@@ -157,9 +157,9 @@ pub(crate) fn rem(lhs: &Value, rhs: &Value) -> TeraResult<Value> {
             let val = match (left, right) {
                 (Number::Integer(a), Number::Integer(b)) => match a.checked_rem_euclid(b) {
                     Some(val) => Value::from(val),
-                    None => {
-                        return Err(Error::message(format!("Unable to perform {lhs} % {rhs}")));
-                    }
+                    // `b` is not 0 here, so the only overflowing case is `i128::MIN % -1`
+                    // whose exact remainder is 0
+                    None => Value::from(0i128),
                 },
                 (Number::Float(a), Number::Float(b)) => Value::from(a.rem_euclid(b)),
                 _ => unreachable!(),
